@@ -266,7 +266,7 @@ def gen_script(rng, kind):
     return s
 
 def gen_cases(rng, tier):
-    n = 250 if tier == 'quick' else 9000
+    n = 150 if tier == 'quick' else 9000
     kinds = ['valid', 'zero', 'badver', 'oversize', 'maxexact', 'undecodable', 'noise', 'bufsize',
              'calls', 'calls', 'wrap', 'dupid', 'jam']
     for i in range(n):
